@@ -566,6 +566,12 @@ func registerIntrinsics(e *Engine) {
 	r["strings.TrimSpace"] = func(e *Engine, fr *frame, args []Value, site ssa.CallInstruction) Value {
 		return strings.TrimSpace(mustStr(e, args[0], "TrimSpace"))
 	}
+	r["strings.Replace"] = func(e *Engine, fr *frame, args []Value, site ssa.CallInstruction) Value {
+		return strings.Replace(mustStr(e, args[0], "Replace"), mustStr(e, args[1], "Replace"), mustStr(e, args[2], "Replace"), asInt(args[3]))
+	}
+	r["strings.Repeat"] = func(e *Engine, fr *frame, args []Value, site ssa.CallInstruction) Value {
+		return strings.Repeat(mustStr(e, args[0], "Repeat"), asInt(args[1]))
+	}
 	r["strings.ToLower"] = func(e *Engine, fr *frame, args []Value, site ssa.CallInstruction) Value {
 		return strings.ToLower(mustStr(e, args[0], "ToLower"))
 	}
@@ -1072,7 +1078,7 @@ func (e *Engine) writeStdout(s Value) {
 		cell = e.globalCell(g)
 	}
 	f := e.fileOf(*cell)
-	f.content = append(append([]Value{}, f.content...), e.strToByteVals(s)...)
+	f.put(e.strToByteVals(s))
 	if f.std == "stdout" {
 		e.stdout = append(e.stdout, s)
 	}
